@@ -81,7 +81,11 @@ func LimitAddressSpace(sc Scenario) {
 	if sc.Describe().Race {
 		return
 	}
-	lim := syscall.Rlimit{Cur: 6 << 30, Max: 6 << 30}
+	gib := uint64(6)
+	if g := sc.Describe().AddressSpaceGiB; g > 0 {
+		gib = uint64(g)
+	}
+	lim := syscall.Rlimit{Cur: gib << 30, Max: gib << 30}
 	syscall.Setrlimit(syscall.RLIMIT_AS, &lim)
 }
 
